@@ -18,11 +18,12 @@ from . import common, mcommon
 ID = "C14"
 NEEDS_MODEL = True
 LEVEL = "exploration"
-N = {"quick": 320, "thorough": 8000}
+N = {"quick": 480, "thorough": 8000}
 
 
 def classify(spec, problems):
-    return mcommon.kf6(spec, problems)
+    from .. import kf
+    return mcommon.kf6(spec, problems) or kf.classify_name_error(spec, problems)
 
 
 def run_one(st, spec, cs):
